@@ -43,6 +43,8 @@ type PropSpec struct {
 	ScopeExclude []string `json:"scope_exclude"`
 	// Sweep: package path suffixes whose every source function is analysed (zero-annotation
 	// sweep for run-time checks); SweepExclude: function key -> reason it is not covered
+	// ThoroughFunctions: verified only in the thorough tier (too slow for the quick tier)
+	ThoroughFunctions []string `json:"thorough_functions"`
 	Sweep        []string          `json:"sweep"`
 	SweepExclude map[string]string `json:"sweep_exclude"`
 	PinnedFile   string   `json:"pinned_file"`   // JSON map obligation -> clause text (in spec/)
@@ -152,6 +154,11 @@ func (s *Session) RunCheck(ps *PropSpec, opts CheckOpts) int {
 		}
 	}
 	var results []*FuncResult
+	if opts.Tier == "thorough" {
+		ps.Functions = append(ps.Functions, ps.ThoroughFunctions...)
+		// larger generation budgets for the functions reserved to this tier
+		ex.MaxHeapMB, ex.MaxObls, ex.GenBudgetS = 14000, 120000, 1200
+	}
 	if len(ps.Sweep) > 0 {
 		have := map[string]bool{}
 		for _, k := range ps.Functions {
@@ -450,6 +457,7 @@ func (s *Session) RunCheck(ps *PropSpec, opts CheckOpts) int {
 		"scope":               ps.Scope,
 		"out_of_scope_query_instances": outOfScope,
 		"pinned_clauses":      len(ps.Pinned),
+		"thorough_only_functions": ps.ThoroughFunctions,
 		"slow_obligations":    slowList(sums, float64(s.TimeoutS)*0.4),
 		"discharged_only_under_known_finding_exclusion": nKnown,
 		"sweep_packages":      ps.Sweep,
